@@ -15,14 +15,38 @@ type Block struct {
 	Rows   [][]string
 }
 
+// escCell: what a table cell must look like for the text s ('|' escaped, line breaks as <br>).
+func escCell(s string) string {
+	s = strings.ReplaceAll(s, "|", "\\|")
+	s = strings.ReplaceAll(s, "\r\n", "<br>")
+	s = strings.ReplaceAll(s, "\n", "<br>")
+	return strings.ReplaceAll(s, "\r", "<br>")
+}
+
+// splitRow splits a rendered table line at the pipes that are not escaped; cells keep their
+// escaped form.
 func splitRow(line string) []string {
 	line = strings.TrimSpace(line)
 	line = strings.TrimPrefix(line, "|")
-	line = strings.TrimSuffix(line, "|")
-	parts := strings.Split(line, "|")
-	for i := range parts {
-		parts[i] = strings.TrimSpace(parts[i])
+	if strings.HasSuffix(line, "|") && !strings.HasSuffix(line, "\\|") {
+		line = strings.TrimSuffix(line, "|")
 	}
+	var parts []string
+	cur := strings.Builder{}
+	for i := 0; i < len(line); i++ {
+		if line[i] == '\\' && i+1 < len(line) && line[i+1] == '|' {
+			cur.WriteString("\\|")
+			i++
+			continue
+		}
+		if line[i] == '|' {
+			parts = append(parts, strings.TrimSpace(cur.String()))
+			cur.Reset()
+			continue
+		}
+		cur.WriteByte(line[i])
+	}
+	parts = append(parts, strings.TrimSpace(cur.String()))
 	return parts
 }
 
